@@ -14,12 +14,14 @@ TEXT = {
             "conformance) is explored exhaustively for 2 peers with the property monitor (Monitor.tla) as invariant; "
             "TLC-generated schedules and seeded random scenarios are executed on the real sessions and every line of "
             "every real trace is judged by the same monitor: last simulation of every confirmed frame = the owner's "
-            "true (delay-shifted) input, ghost hash chain = game state.",
+            "true (delay-shifted) input, and the game state after the newest final frame = the serial replay of the final "
+            "inputs (hash chain recomputed by the monitor).",
             "DESIGN.md section 3 C01"),
     "C02": ("Request-list walker in TLA+ (save names the game's frame, load names an earlier frame whose cell holds "
             "the state of the current timeline, advances without gaps, final frame = current_frame, frame 0 saved "
             "before simulated) evaluated by TLC on exhaustive model runs and on every advance_frame call of real "
-            "P2P and spectator sessions.", "DESIGN.md section 3 C02"),
+            "P2P and spectator sessions, including three-peer runs in which a gossiped earlier cut-off rolls a survivor back to "
+            "its confirmed frame.", "DESIGN.md section 3 C02"),
     "C03": ("Status truthfulness (Confirmed = owner's truth and received; Predicted = predictor of newest received; "
             "Disconnected = default after cut-off; locals Confirmed) and finality of confirmed inputs / monotone "
             "confirmed_frame as TLA+ predicates over every AdvanceFrame request, model-checked and evaluated on real traces "
@@ -69,10 +71,13 @@ TEXT = {
             "of real runs (handshake, running, after a disconnect) and the TLA+ monitor demands delivered inputs = "
             "owner-side truth, intact event automata and no panic; packets of every kind with a foreign magic number "
             "arrive during silences and after a death while the exact timing predicates must hold as if they did not "
-            "exist (connection state unchanged); Trace_Twin.tla compares with the unforged twin.",
+            "exist (connection state unchanged); Trace_Twin.tla compares with the unforged twin; the datagram layer "
+            "(UdpNonBlockingSocket on loopback) receives raw datagrams - truncations, trailing bytes, marker values at every "
+            "position, unknown variants, over-long ones - and TLC judges what it hands out against the grammar Wire.tla.",
             "DESIGN.md section 3 C08"),
     "C12": ("MC_Handshake.tla (Protocol.tla operators, loss/dup/reorder/stray replies): Running iff 5 matched round "
-            "trips, event word well formed, liveness; on real traces the TLA+ monitor runs a per-address event automaton, "
+            "trips, event word well formed, liveness; on real traces (where the number of round trips is the one the "
+            "Synchronizing events announce) the TLA+ monitor runs a per-address event automaton, "
             "counts matched request/reply round trips from the packets, relates Running/NotSynchronized to them, times "
             "NetworkInterrupted/Disconnected against the virtual clock (silences notify/timeout -220..+150 ms), "
             "bounds the event queue in never-drained sessions and forbids interruptions for poll-only pairs; an "
